@@ -17,7 +17,7 @@ from .common import cps
 
 _S = {}
 # which variant of the code the working tree follows (probed once per run by `probe_variants`, see findings/nwu)
-VARIANT = {'lockstep': False}
+VARIANT = {'lockstep': False, 'pristine_half': False}
 
 
 def _mod():
@@ -308,7 +308,8 @@ def to_ops(rec):
     base = [cps(src), cps(rec['conn'] or ''), str(rec['mpl']), '1' if rec['is_cur'] else '0', '1' if rec['is_dim'] else '0',
             _mrs(pm), _mrs(sm), _mrs(nums1), _mrs(nums2), (','.join(cuts) if cuts else '_'),
             _lst(['%d:%d' % (s, l) for (s, l, e) in rec['nonunit']]), '1' if rec['has_sep'] else '0',
-            _lst(['%d:%s' % (s, cps(g)) for (s, g) in sep]), cps(rec['amb_term']), filt1, filt2, _mask(half), '1' if VARIANT['lockstep'] else '0']
+            _lst(['%d:%s' % (s, cps(g)) for (s, g) in sep]), cps(rec['amb_term']), filt1, filt2, _mask(half), '1' if VARIANT['pristine_half'] else '0',
+            '1' if VARIANT['lockstep'] else '0']
     ops = []
     flags = rec['select'][0]['flags'] if rec['select'] else None
     if rec['filter_raised']:
@@ -446,6 +447,7 @@ def _extractor_for(mt, cul, k):
 
 
 PROBE_SELECT = 'model 5usd3 costs 7 dollars'
+PROBE_HALF = '5元,￥ 半'
 
 
 def probe_variants():
@@ -457,12 +459,20 @@ def probe_variants():
     from . import recog
     EX = _mod()
     ex = EX.NumberWithUnitExtractor(recog.get_model('NumberWithUnit', 'CurrencyModel', 'en-us').extractor_parser[0].extractor.config)
+    v = {}
     try:
         out = ex.extract(PROBE_SELECT)
+        got = [(e.start, e.length, e.text) for e in out]
+        v.update({'lockstep': got == [(18, 9, '7 dollars')], 'probe': got})
     except IndexError:
-        return {'lockstep': False, 'probe': 'IndexError'}
-    got = [(e.start, e.length, e.text) for e in out]
-    return {'lockstep': got == [(18, 9, '7 dollars')], 'probe': got}
+        v.update({'lockstep': False, 'probe': 'IndexError'})
+    # `5元,￥ 半` (zh-cn currency): the number `半` is consumed by `￥ 半`, the loop overwrites its start with the relative
+    # start 2 = where `5元` ends; expand_half_suffix then glues `半` onto `5元` (text `5元半` is not the source at [0,3)).
+    # With findings/nwu/half-stale-start.diff the relative start is set on a copy and `5元` stays as it is.
+    zx = EX.NumberWithUnitExtractor(recog.get_model('NumberWithUnit', 'CurrencyModel', 'zh-cn').extractor_parser[0].extractor.config)
+    got = [(e.start, e.length, e.text) for e in zx.extract(PROBE_HALF)]
+    v.update({'pristine_half': got[:1] == [(0, 2, PROBE_HALF[:2])], 'probe_half': got})
+    return v
 
 
 def run_chunk(arg):
